@@ -46,9 +46,13 @@ ExpUpper(tr) ==
 NonStdCal(tr) == tr.kind = "cf" /\ CalOf(tr.cal) # "std"
 \* ... is right only for whole days counted from a Jan-1 00:00:00 UTC reference in
 \* days, hours or minutes; everything else in that branch is the finding
+\* (and, for the 366-day calendars, when the decoded vector contains a Feb 29 of
+\* a year that is not a leap year: the library then falls back to real-calendar
+\* day arithmetic for the whole vector)
+HasUnshowable(tr) == \E j \in 1..Len(tr.w) : ~Showable(Expected(tr, j))
 K1Applies(tr, i) ==
   /\ NonStdCal(tr)
-  /\ ~(/\ tr.ref[2] = 1 /\ tr.ref[3] = 1 /\ tr.ref[4] = 0 /\ tr.ref[5] = 0 /\ tr.ref[6] = 0
+  /\ HasUnshowable(tr) \/ ~(/\ tr.ref[2] = 1 /\ tr.ref[3] = 1 /\ tr.ref[4] = 0 /\ tr.ref[5] = 0 /\ tr.ref[6] = 0
         /\ tr.tzm = 0 /\ tr.unit # "seconds"
         /\ LET e == Expected(tr, i) IN e[4] = 0 /\ e[5] = 0 /\ e[6] = 0 /\ e[7] = 0)
 
